@@ -1,11 +1,11 @@
 INIT Init
 NEXT Next
 CONSTANTS
-  FactorNames <- N_q7
+  FactorNames <- N_small
   Powers <- P_pm1
-  MaxFactors = 2
+  MaxFactors = 1
   Mags <- M_pos
-  TargetNames <- N_q7
+  TargetNames <- N_small
   TargetPowers <- P_pm1
   MaxTFactors = 2
   ScaleKs <- K_one
